@@ -103,6 +103,9 @@ void mp_gcdext(integer_class &gcd, integer_class &s, integer_class &t,
         this_s *= -1;
         this_t *= -1;
     }
+    if (this_r == 0) {
+        this_s = 0; // gcdext(0, 0): g = s = t = 0 as mpz_gcdext
+    }
     gcd = std::move(this_r);
     s = std::move(this_s);
     t = std::move(this_t);
@@ -167,7 +170,7 @@ void mp_powm(integer_class &res, const integer_class &base,
         // boost's powm calculates base**exp % m, but uses truncated
         // modulus, e.g. powm(-2,3,5) == -3.  We want powm(-2,3,5) == 2
         if (res < 0) {
-            res += m;
+            res += mp_abs(m);
         }
     }
 }
@@ -184,8 +187,8 @@ integer_class step(const unsigned long &n, const integer_class &i,
 bool positive_root(integer_class &res, const integer_class &i,
                    const unsigned long n)
 {
-    integer_class x
-        = 1; // TODO: make a better starting guess based on (number of bits)/n
+    // starting guess 2**(floor(log2(i)) / n + 1) > i**(1/n)
+    integer_class x = integer_class(1) << (boost::multiprecision::msb(i) / n + 1);
     integer_class y = step(n, i, x);
     do {
         x = y;
@@ -251,9 +254,11 @@ void mp_sqrtrem(integer_class &a, integer_class &b, const integer_class &i)
 // return nonzero if i is probably prime.
 int mp_probab_prime_p(const integer_class &i, unsigned retries)
 {
-    if (i % 2 == 0)
-        return (i == 2);
-    return miller_rabin_test(i, retries);
+    // as mpz_probab_prime_p: the sign is ignored
+    integer_class n = mp_abs(i);
+    if (n % 2 == 0)
+        return (n == 2);
+    return miller_rabin_test(n, retries);
 }
 
 void mp_nextprime(integer_class &res, const integer_class &i)
@@ -378,7 +383,10 @@ void mp_lucnum_ui(integer_class &res, unsigned long n)
 void mp_lucnum2_ui(integer_class &a, integer_class &b, unsigned long n)
 {
     if (n == 0) {
-        throw std::runtime_error("index of lucas number cannot be negative");
+        // L(0) = 2, L(-1) = -1 as mpz_lucnum2_ui
+        a = 2;
+        b = -1;
+        return;
     }
     two_by_two_matrix result_matrix = luc_matrix(n - 1);
     a = result_matrix.data[0][0];
@@ -423,7 +431,7 @@ bool mp_perfect_power_p(const integer_class &i)
     // case where i is a prime power of two
     // so check all prime roots up to log(i) base 2.
 
-    unsigned long max = std::ilogb(i.convert_to<double>());
+    unsigned long max = boost::multiprecision::msb(mp_abs(i));
 
     // treat case p=2 separately b/c mp_root throws exception
     // with an even root of a negative
@@ -533,11 +541,12 @@ int unchecked_jacobi(const integer_class &a, const integer_class &n)
 // public interface for computing jacobi symbols.  performs checking.
 int mp_jacobi(const integer_class &a, const integer_class &n)
 {
-    if (n < 0) {
-        throw std::runtime_error("jacobi denominator must be positive");
-    }
     if (n % 2 == 0) {
         throw std::runtime_error("jacobi denominator must be odd");
+    }
+    if (n < 0) {
+        // as mpz_jacobi: for odd n the Jacobi and Kronecker symbols coincide
+        return ((a < 0) ? -1 : 1) * unchecked_jacobi(a, mp_abs(n));
     }
     return unchecked_jacobi(a, n);
 }
@@ -574,7 +583,8 @@ int mp_kronecker(const integer_class &a, const integer_class &n)
     */
 
     if (n == 0) {
-        throw std::runtime_error("second arg of Kronecker cannot be zero");
+        // (a | 0) is 1 for a = +-1 and 0 otherwise, as mpz_kronecker
+        return (a == 1 || a == -1) ? 1 : 0;
     }
 
     // Compute (a | u)
